@@ -70,15 +70,28 @@ impl Write for UdpStream {
 
 impl AsyncRead for UdpStream {
     fn poll_read(
-        self: Pin<&mut Self>,
+        mut self: Pin<&mut Self>,
         cx: &mut Context<'_>,
         buf: &mut ReadBuf<'_>,
     ) -> Poll<Result<(), std::io::Error>> {
-        match self.inner.poll_recv(cx, buf) {
-            Poll::Ready(Ok(_n)) => Poll::Ready(Ok(())),
-            Poll::Ready(Err(e)) => Poll::Ready(Err(e)),
-            Poll::Pending => Poll::Pending,
+        // lets clear out our internal buffer first
+        if self.buffer.is_empty() {
+            // we need an internal buffer for *this receive call* to ensure that the internal
+            // udpsocket does not truncate anything. We cannot guarantee that the caller's buffer
+            // will have the space we require, and whatever does not fit would be lost.
+            let mut rx_bytes = [0u8; crate::MAX_SIZE_PACKET];
+            let mut rx_buf = ReadBuf::new(&mut rx_bytes);
+            match self.inner.poll_recv(cx, &mut rx_buf) {
+                Poll::Ready(Ok(())) => self.buffer.extend_from_slice(rx_buf.filled()),
+                Poll::Ready(Err(e)) => return Poll::Ready(Err(e)),
+                Poll::Pending => return Poll::Pending,
+            }
         }
+
+        let to_copy = buf.remaining().min(self.buffer.len());
+        let bytes = self.buffer.copy_to_bytes(to_copy);
+        buf.put_slice(&bytes);
+        Poll::Ready(Ok(()))
     }
 }
 
